@@ -69,6 +69,10 @@ structure Skeleton where
   bcCloseSetsClosed          : Bool
   bcCloseUnderLock           : Bool
   bcChanCap                  : Nat   -- capacity of the per-key value channel
+  bcReceiveOneSection        : Bool  -- Receive: closed check, lookup and insert in ONE lock..unlock region
+  bcFreeOneSection           : Bool  -- Free: lookup, cancel, close and delete in ONE region
+  bcCloseOneSection          : Bool  -- Close: one region
+  bcPublishOneLookupSection  : Bool  -- Publish: closed check and lookup in ONE region
   /- ---------------- rpc/registry.go : makeRPC stub ---------------- -/
   stubCallIdFresh            : Bool  -- callID := uuid.NewString() inside the per-call literal
   stubRequestCallIsCallId    : Bool  -- Request{Call: callID,
@@ -153,6 +157,8 @@ structure Skeleton where
   clInsertUnderLock          : Bool
   clIdFresh                  : Bool
   clMissingIsError           : Bool
+  clInvokeOutsideLock        : Bool  -- CallClosure runs the closure after releasing closuresLock (no lock is held across user code)
+  clLockIsMutex              : Bool  -- closuresLock is a plain sync.Mutex locked with Lock/Unlock
   /- ---------------- setErr / Link ---------------- -/
   seOrder                    : SetErrOrder
   seFirstOnly                : Bool
@@ -185,6 +191,7 @@ structure Skeleton where
   stEncodeRequestOnly        : Bool  -- Message{Request:&b}
   stEncodeResponseOnly       : Bool  -- Message{Response:&b}
   stPayloadOpaque            : Bool
+  stHandoffChanCap           : Nat   -- capacity of the decoder's hand-off channels (0: a frame is handed over before the next decode)
   /- ---------------- wire ---------------- -/
   tagReqCall : String
   tagReqFunction : String
